@@ -305,6 +305,25 @@ func (w *world) classUF(name string, r symv, limit uint32, low func(t *Term) *Te
 	inLow := tc.And(tc.BVCmp("bvsge", t, tc.BV(32, 0)), tc.BVCmp("bvslt", t, tc.BV(32, uint64(limit))))
 	uf := tc.App("uf_"+name, boolSort, t)
 	w.ufUsed(name)
+	// Unicode general categories are disjoint: a rune that is a digit or a
+	// number (N*) is not a letter (L*); upper and lower are both letters.
+	switch name {
+	case "unicode.IsDigit", "unicode.IsNumber":
+		uf = tc.And(uf, tc.Not(tc.App("uf_unicode.IsLetter", boolSort, t)))
+	case "unicode.IsUpper":
+		uf = tc.And(uf, tc.App("uf_unicode.IsLetter", boolSort, t), tc.Not(tc.App("uf_unicode.IsLower", boolSort, t)))
+	case "unicode.IsLower":
+		uf = tc.And(tc.App("uf_unicode.IsLower", boolSort, t), tc.App("uf_unicode.IsLetter", boolSort, t))
+	case "unicode.IsSpace", "unicode.IsControl":
+		uf = tc.And(uf, tc.Not(tc.App("uf_unicode.IsLetter", boolSort, t)), tc.Not(tc.App("uf_unicode.IsDigit", boolSort, t)))
+	}
+	// fixed points of the real tables that the code under test mentions by
+	// value: U+FEFF (BOM, Cf) and U+FFFD (replacement char, So), and the
+	// non-code-points (surrogates, > U+10FFFF), which belong to no class.
+	printable := strings.HasSuffix(name, "IsPrint") || strings.HasSuffix(name, "IsGraphic")
+	c := func(v uint32) *Term { return tc.BV(32, uint64(v)) }
+	nonCP := tc.Or(rng(tc, t, 0xD800, 0xDFFF), tc.BVCmp("bvugt", t, c(0x10FFFF)))
+	uf = tc.Ite(tc.Eq(t, c(0xFFFD)), tc.Bool(printable), tc.And(uf, tc.Not(tc.Eq(t, c(0xFEFF))), tc.Not(nonCP)))
 	return mkValue(types.Bool, tc.Ite(inLow, low(t), uf))
 }
 
